@@ -276,9 +276,12 @@ def history(ta: str, tb: str, s1: int, s2: int, ca_last: bool, cb_last: bool, se
             return verdict(False)
     elif cb_last:
         return True
-    # ---- one more render, of the empty array: the window's rows must all end up blank whatever the row cache believes
-    if not _render_and_check(win, model, [], (0, 0), state, w, h):
-        return verdict(False)
+    # ---- one more render, of the empty array: the window's rows must all end up blank whatever the row cache believes.
+    # (Skipped when the last render put the cursor on the array's last row, so that the context is also left with the
+    # cursor wherever a render leaves it - in particular on the bottom row of the screen.)
+    if not (cb_last if second else ca_last):
+        if not _render_and_check(win, model, [], (0, 0), state, w, h):
+            return verdict(False)
     # ---- leaving: rows above the cursor unchanged, nothing below it remains
     before = _tape(model)
     crow_tape = len(model.scrollback) + model.r
@@ -433,10 +436,11 @@ def concrete(fn, params, args):
                 return {"ok": False, "observed": obs, "expected": exp, "call": call}
         elif cb_last:
             return {"ok": True, "observed": "not a case", "call": "-"}
-        ok, obs, exp = render([], (0, 0))
-        call += "; render([], (0, 0))"
-        if not ok:
-            return {"ok": False, "observed": obs, "expected": exp, "call": call}
+        if not (cb_last if second else ca_last):
+            ok, obs, exp = render([], (0, 0))
+            call += "; render([], (0, 0))"
+            if not ok:
+                return {"ok": False, "observed": obs, "expected": exp, "call": call}
         before = list(scr.display)
         crow = scr.cursor.y
         win.__exit__(None, None, None)
